@@ -29,6 +29,11 @@ THEOREMS = [
     'Pyiga.Props.C10.complete_restrict',
     'Pyiga.Props.C10.duplicate_indices_error',
     'Pyiga.Props.C10.out_of_range_error',
+    'Pyiga.Props.C10.combine_bcs_ok',
+    'Pyiga.Props.C10.combine_bcs_spec',
+    'Pyiga.Props.C10.combine_bcs_value',
+    'Pyiga.Props.C10.blocked_numbering_injective',
+    'Pyiga.Props.C10.initial_condition_01',
 ]
 MODULES = ['Pyiga.Model.Index', 'Pyiga.Model.Slice', 'Pyiga.Model.Restrict', 'Pyiga.Proofs.Index',
            'Pyiga.Proofs.Slice', 'Pyiga.Proofs.Restrict', 'Pyiga.Props.C10']
